@@ -77,3 +77,11 @@ func VerifHarness_C02_MonotoneInterior() {
 	verifReach("compared-interior")
 	verifAssert(ka <= kb, "quantiser: result decreases as x increases inside (0,1)")
 }
+
+// VerifHarness_C02_NegControl: deliberately wrong claim (8-bit quantiser never returns
+// 255 below 1.0); must be reported as violated.
+func VerifHarness_C02_NegControl() {
+	x := verifF32()
+	verifAssume(x < 1)
+	verifAssert(NormalisedTo8Bit(x) < 255, "negative control: N8(x) < 255 for x < 1 (wrong on purpose)")
+}
